@@ -101,6 +101,55 @@ theorem findFree_hit (slots : List Slot) (now32 pgn src dst : Nat) (tp : Bool) (
   simp only [h, Option.map_some, Nat.add_zero] at this
   simp only [this]
 
+/-- the "oldest slot" the scan reports is a slot of the list and `ot` is its message time (or both are the initial values) -/
+theorem scanFree_oldest (hit : Slot → Bool) : ∀ (l : List Slot) (s : Nat) (oi : Option Nat) (ot : Nat),
+    ((scanFree hit l s oi ot).2.1 = oi ∧ (scanFree hit l s oi ot).2.2 = ot) ∨
+    (∃ k a, (scanFree hit l s oi ot).2.1 = some (s + k) ∧ l[k]? = some a ∧ a.msgTime = (scanFree hit l s oi ot).2.2)
+  | [], _, _, _ => Or.inl ⟨rfl, rfl⟩
+  | a :: t, s, oi, ot => by
+    unfold scanFree
+    by_cases hp : hit a = true
+    · rw [if_pos hp]; exact Or.inl ⟨rfl, rfl⟩
+    · rw [if_neg hp]
+      by_cases hb : isTimeBefore a.msgTime ot = true
+      · rw [if_pos hb]
+        rcases scanFree_oldest hit t (s + 1) (some s) a.msgTime with h | ⟨k, b, h1, h2, h3⟩
+        · exact Or.inr ⟨0, a, by rw [h.1]; rfl, rfl, h.2.symm⟩
+        · exact Or.inr ⟨k + 1, b, by rw [h1]; congr 1; omega, by simpa using h2, h3⟩
+      · rw [if_neg hb]
+        rcases scanFree_oldest hit t (s + 1) oi ot with h | ⟨k, b, h1, h2, h3⟩
+        · exact Or.inl h
+        · exact Or.inr ⟨k + 1, b, by rw [h1]; congr 1; omega, by simpa using h2, h3⟩
+
+/-- a slot that `FindFreeCANMsgIndex` recycles (no free or matching slot exists) is at least 100 ms old -/
+theorem findFree_recycled_old (slots : List Slot) (now32 pgn src dst : Nat) (tp : Bool) (i : Nat)
+    (hnone : findIdx (slotHit pgn src dst tp) slots = none) (h : (findFree slots now32 pgn src dst tp).2 = some i) :
+    ∃ a, slots[i]? = some a ∧ hasElapsed a.msgTime 100 now32 = true := by
+  unfold findFree at h
+  have h1 := scanFree_fst (slotHit pgn src dst tp) slots 0 none now32
+  rw [hnone] at h1
+  simp only [Option.map_none] at h1
+  have h2 := scanFree_oldest (slotHit pgn src dst tp) slots 0 none now32
+  generalize scanFree (slotHit pgn src dst tp) slots 0 none now32 = r at *
+  obtain ⟨r1, r2, r3⟩ := r
+  simp only at h1 h2 h
+  subst h1
+  simp only at h
+  cases r2 with
+  | none => simp at h
+  | some oi =>
+    simp only at h
+    generalize he : hasElapsed r3 100 now32 = e at h
+    cases e with
+    | false => simp at h
+    | true =>
+      simp at h
+      subst h
+      rcases h2 with ⟨hh, _⟩ | ⟨k, a, hk, ha, ht⟩
+      · cases hh
+      · simp at hk; subst hk
+        exact ⟨a, ha, by rw [ht]; exact he⟩
+
 /-! ## protocol frames arriving -/
 
 theorem buf8_of_len8 (id : Nat) (b : List Nat) (hb : b.length = 8) : buf8 ⟨id, 8, b⟩ = b := by
